@@ -34,6 +34,7 @@ pub fn gen(group: &str, rng: &mut Rng, n: usize, out: &mut Vec<String>) {
         "pagedstop" => stream::gen_pagedstop(rng, n, out),
         "pagedlost" => stream::gen_pagedlost(rng, n, out),
         "pagedabandon" => stream::gen_pagedabandon(rng, n, out),
+        "useradapter" => stream::gen_useradapter(rng, n, out),
         "setup" => net::gen_setup(rng, n, out),
         "tls" => net::gen_tls(rng, n, out),
         "sync" => synclane::gen(rng, n, out),
@@ -52,7 +53,7 @@ pub fn run(lane: &str, args: &[&str]) -> (String, Option<String>) {
         "req" => req::run(lane, args),
         "conn" => conn::run(lane, args),
         "msgid" => conn::run_msgid(args),
-        "stream" | "paged" => stream::run(lane, args),
+        "stream" | "paged" | "useradapter" => stream::run(lane, args),
         "pagedlost" | "pagedabandon" => stream::run("paged", args),
         "setup" | "setupx" => net::run_setup(lane, args),
         "tls" => net::run_tls(args),
